@@ -32,9 +32,11 @@ CONSTANTS Deviations,      \* implementation model: subset of AllDevs
           Worlds,          \* which input signatures are explored
           Rich,            \* bigger menus
           NumIter,         \* num_iterations of optimize()
+          Sim,             \* TRUE (only with -simulate): every menu choice is drawn at random instead of enumerated
+          Fine,            \* TRUE: one optimizer step per visited node; FALSE: one step per pass
           Mutant           \* "none", or a seeded defect of the DESIGN (shows that the invariants can fail)
-VARIABLES stage, wd, m0, envs, gr, st, dsg
-vars == <<stage, wd, m0, envs, gr, st, dsg>>
+VARIABLES stage, wd, m0, envs, gr, st, rnd
+vars == <<stage, wd, m0, envs, gr, st, rnd>>
 
 AllDevs == {"overridable_read_as_const", "overridable_default_dropped", "relu_clip_negmax", "clip_clip_disjoint",
             "relu_clip_no_dtype_raise", "graph_input_output_renamed"}
@@ -147,7 +149,7 @@ WFeeds(w) ==
 NP == 3
 \* the override a caller may pass for an overridable initializer-input (probe 4 = probe 1 + overrides)
 Override(t) == IF t.dt = "bool" THEN T("bool", t.shape, [k \in 1..Len(t.data) |-> 1 - t.data[k]])
-               ELSE IF t.dt = "i64" THEN Vec("i64", <<1>> \o t.data)
+               ELSE IF t.dt = "i64" THEN Vec("i64", [k \in 1..Len(t.data) |-> t.data[Len(t.data) + 1 - k]])   \* same rank: the declared output ranks stay true
                ELSE T(t.dt, t.shape, [k \in 1..Len(t.data) |-> t.data[k] + 1])
 OvrNames(m) == {m.ins[i].name : i \in {i \in 1..Len(m.ins) : m.ins[i].kind = "ovr"}}
 OvrFeed(m, w) == [nm \in OvrNames(m) |-> Override(m.ins[CHOOSE i \in 1..Len(m.ins) : m.ins[i].name = nm].val)] @@ WFeeds(w)[1]
@@ -158,10 +160,14 @@ NodeCount(m) == Cardinality({k \in 1..Len(m.nodes) : m.nodes[k].op # "Constant"}
 NextId(m) == Len(m.nodes) + Len(m.inits) + Len(m.ins) + 1
 InNames(m) == {m.ins[i].name : i \in 1..Len(m.ins)}
 \* operands a new node may take: the data inputs and the two most recent node outputs
+\* simulation: a reproducible pseudo-random choice driven by the behaviour's salt rnd (RandomElement is re-seeded per state)
+PickN(salt, S) == IF Sim /\ S # {} THEN LET sq == SetToSeq(S)
+                                     hsh == (rnd * 7919 + (Len(m0.nodes) + Len(m0.inits) + Len(m0.ins)) * 104729 + salt * 1299709) % 1000003
+                                 IN {sq[(hsh % Len(sq)) + 1]} ELSE S
 Avail == LET s == m0.main IN ({"x", "y"} \cap InNames(m0)) \cup {s[j] : j \in {j \in 1..Len(s) : j >= Len(s) - 1}}
 V1(nm) == envs[1][nm]
-AvailF == {a \in Avail : V1(a).dt = "f32"}
-AvailS == {a \in Avail : V1(a).dt = "i64" /\ Rank(V1(a)) = 1}
+AvailF == PickN(1, {a \in Avail : V1(a).dt = "f32"})
+AvailS == PickN(2, {a \in Avail : V1(a).dt = "i64" /\ Rank(V1(a)) = 1})
 vN == "v" \o Str(NextId(m0))
 cN == "c" \o Str(NextId(m0))
 dN == "d" \o Str(NextId(m0))
@@ -174,7 +180,7 @@ TryAdd(nIns, nInits, nNodes) ==
    IN /\ \A k \in 1..NP : \A nm \in newNames : ~IsErr(e1[k][nm])
       /\ m0' = [m0 EXCEPT !.ins = @ \o nIns, !.inits = @ \o nInits, !.nodes = @ \o nNodes, !.main = Append(@, vN)]
       /\ envs' = e1
-      /\ UNCHANGED <<stage, wd, gr, st, dsg>>
+      /\ UNCHANGED <<stage, wd, gr, st, rnd>>
 
 \* how a "constant" operand is supplied.  cnode: Constant node; init: initializer; ovr: initializer that is also a graph
 \* input (a default the caller may override); cexpr/iexpr/oexpr: Neg(Neg(.)) of one of those (a constant sub-expression)
@@ -196,10 +202,12 @@ NoC == [ins |-> <<>>, inits |-> <<>>, nodes |-> <<>>, nm |-> ""]
 AddWith(c, node) == TryAdd(c.ins, c.inits, c.nodes \o <<node>>)
 
 \* primary operand of a new node: the most recent value (slim menus: chains), or any available value (rich menus)
-Prim == IF Rich \/ m0.main = <<>> THEN Avail ELSE {m0.main[Len(m0.main)]}
-PrimF == {a \in Prim : V1(a).dt = "f32"}
-PrimS == {a \in Prim : V1(a).dt = "i64" /\ Rank(V1(a)) = 1}
-UnOps == IF Rich THEN {"Neg", "Abs", "Relu", "Identity", "Dropout"} ELSE {"Neg", "Relu", "Identity", "Dropout"}
+Prim0 == IF Rich \/ m0.main = <<>> THEN Avail ELSE {m0.main[Len(m0.main)]}
+Prim == PickN(3, Prim0)
+PrimF == PickN(4, {a \in Prim0 : V1(a).dt = "f32"})
+PrimS == PickN(5, {a \in Prim0 : V1(a).dt = "i64" /\ Rank(V1(a)) = 1})
+UnOps0 == IF Rich THEN {"Neg", "Abs", "Relu", "Identity", "Dropout"} ELSE {"Neg", "Relu", "Identity", "Dropout"}
+UnOps == PickN(6, UnOps0)
 AddUnary == /\ CanAdd
             /\ \E a \in PrimF, op \in UnOps : TryAdd(<<>>, <<>>, <<N1(op, <<a>>, vN)>>)
 AddDropoutMask == /\ CanAdd /\ Rich
@@ -208,27 +216,29 @@ AddCast == /\ CanAdd
            /\ \E a \in Prim, to \in {"i64", "f32"} :
                  TryAdd(<<>>, <<>>, <<Nd("Cast", <<a>>, <<vN>>, [NoAt EXCEPT !.to = to], <<>>)>>)
 AddCastLike == /\ CanAdd
-               /\ \E a \in PrimF, b2 \in (IF Rich THEN Avail \cup {"b"} ELSE {"x", "b"}) :
+               /\ \E a \in PrimF, b2 \in PickN(7, IF Rich THEN Avail \cup {"b"} ELSE {"x"}) :
                      b2 \in DOMAIN envs[1] /\ TryAdd(<<>>, <<>>, <<N1("CastLike", <<a, b2>>, vN)>>)
 Perms(r) == IF r = 2 THEN {<<0, 1>>, <<1, 0>>}
             ELSE IF r = 3 THEN {<<0, 1, 2>>, <<0, 2, 1>>, <<1, 0, 2>>, <<1, 2, 0>>, <<2, 0, 1>>, <<2, 1, 0>>} ELSE {}
 AddTranspose == /\ CanAdd
-                /\ \E a \in PrimF : \E p \in Perms(Rank(V1(a))) :
+                /\ \E a \in PrimF : \E p \in PickN(8, Perms(Rank(V1(a)))) :
                       TryAdd(<<>>, <<>>, <<Nd("Transpose", <<a>>, <<vN>>, [NoAt EXCEPT !.perm = p], <<>>)>>)
 \* op(a, constant): <<op, value, kind>>
-BinCMenu ==
-   IF Rich THEN {<<op, t, k>> : op \in {"Add", "Sub", "Mul", "Min", "Max"}, t \in {FS(0), FS(1), FS(-1), FS(2), FV(<<0>>), FV(<<1>>)}, k \in CKindsAll}
-   ELSE {<<"Add", FS(0), "init">>, <<"Add", FS(0), "ovr">>, <<"Add", FS(1), "cnode">>, <<"Mul", FS(1), "init">>, <<"Sub", FS(0), "cnode">>,
-         <<"Min", FS(1), "init">>, <<"Min", FS(1), "ovr">>, <<"Max", FS(0), "init">>, <<"Max", FS(2), "cnode">>, <<"Mul", FS(2), "iexpr">>}
+BinCMenu0 ==
+   IF Rich THEN {<<op, t, k>> : op \in PickN(9, {"Add", "Sub", "Mul", "Min", "Max"}), t \in PickN(10, {FS(0), FS(1), FS(-1), FS(2), FV(<<0>>), FV(<<1>>)}), k \in PickN(11, CKindsAll)}
+   ELSE {<<"Add", FS(0), "init">>, <<"Add", FS(0), "ovr">>, <<"Mul", FS(1), "cnode">>,
+         <<"Min", FS(1), "init">>, <<"Max", FS(0), "init">>, <<"Max", FS(2), "cnode">>, <<"Mul", FS(2), "iexpr">>}
+BinCMenu == PickN(12, BinCMenu0)
 AddBinConst == /\ CanAdd
                /\ \E a \in PrimF, e \in BinCMenu, flip \in BOOLEAN :
                      /\ flip => (e[1] \in {"Add", "Mul"} /\ Rich)
                      /\ LET c == COp(e[3], cN, e[2]) IN AddWith(c, N1(e[1], IF flip THEN <<c.nm, a>> ELSE <<a, c.nm>>, vN))
 AddBin == /\ CanAdd
-          /\ \E a \in PrimF, b2 \in AvailF, op \in (IF Rich THEN {"Add", "Mul", "Sub", "Min"} ELSE {"Add"}) :
+          /\ \E a \in PrimF, b2 \in (IF Rich THEN AvailF ELSE {"x"}), op \in (IF Rich THEN {"Add", "Mul", "Sub", "Min"} ELSE {"Add"}) :
                 TryAdd(<<>>, <<>>, <<N1(op, <<a, b2>>, vN)>>)
-ClipMenu == IF Rich THEN {<<lo, hi, k>> : lo \in {NONEB, -2, -1, 0, 1, 2}, hi \in {NONEB, -2, -1, 0, 1, 2}, k \in CKindsPlain}
+ClipMenu0 == IF Rich THEN {<<lo, hi, k>> : lo \in PickN(13, {NONEB, -2, -1, 0, 1, 2}), hi \in PickN(14, {NONEB, -2, -1, 0, 1, 2}), k \in PickN(15, CKindsPlain)}
             ELSE {<<-1, 1, "init">>, <<NONEB, -1, "cnode">>, <<1, NONEB, "init">>}
+ClipMenu == PickN(16, ClipMenu0)
 AddClip == /\ CanAdd
            /\ \E a \in PrimF, e \in ClipMenu :
                  /\ e[1] # NONEB \/ e[2] # NONEB
@@ -237,25 +247,30 @@ AddClip == /\ CanAdd
                     IN TryAdd(cl.ins \o ch.ins, cl.inits \o ch.inits,
                               cl.nodes \o ch.nodes \o <<N1("Clip", IF e[2] = NONEB THEN <<a, cl.nm>> ELSE <<a, cl.nm, ch.nm>>, vN)>>)
 \* shape computations: Shape, Size, Gather from a shape vector, Concat of shape vectors
-IdxVals == IF Rich THEN {IVec(<<0>>), IVec(<<-1>>), IVec(<<1, 0>>), Scalar("i64", 0)} ELSE {IVec(<<0>>), IVec(<<-1>>)}
+IdxVals0 == IF Rich THEN {IVec(<<0>>), IVec(<<-1>>), IVec(<<1, 0>>), Scalar("i64", 0)} ELSE {IVec(<<0>>), IVec(<<-1>>)}
+IdxVals == PickN(17, IdxVals0)
 AddShapeOp == /\ CanAdd
-              /\ \/ \E a \in Prim \cup (IF "y" \in InNames(m0) THEN {"y"} ELSE {}) : TryAdd(<<>>, <<>>, <<N1("Shape", <<a>>, vN)>>)
+              /\ \/ \E a \in PickN(18, Prim0 \cup (IF "y" \in InNames(m0) THEN {"y"} ELSE {})) : TryAdd(<<>>, <<>>, <<N1("Shape", <<a>>, vN)>>)
                  \/ Rich /\ \E a \in Prim : TryAdd(<<>>, <<>>, <<N1("Size", <<a>>, vN)>>)
                  \/ \E s \in PrimS, idx \in IdxVals, kind \in (IF Rich THEN {"cnode", "init"} ELSE {"init"}), ax \in (IF Rich THEN {0, NOAX} ELSE {0}) :
                        AddWith(COp(kind, cN, idx), Nd("Gather", <<s, cN>>, <<vN>>, [NoAt EXCEPT !.axis = ax], <<>>))
-                 \/ \E s \in PrimS, s2 \in AvailS : TryAdd(<<>>, <<>>, <<Nd("Concat", <<s, s2>>, <<vN>>, [NoAt EXCEPT !.axis = 0], <<>>)>>)
+                 \/ \E s \in PrimS : \E s2 \in (IF Rich THEN AvailS ELSE {s}) : TryAdd(<<>>, <<>>, <<Nd("Concat", <<s, s2>>, <<vN>>, [NoAt EXCEPT !.axis = 0], <<>>)>>)
                  \/ \E s \in PrimS, kind \in (IF Rich THEN {"cnode", "init"} ELSE {"cnode"}), front \in (IF Rich THEN BOOLEAN ELSE {FALSE}) :
                        AddWith(COp(kind, cN, IVec(<<1>>)), Nd("Concat", IF front THEN <<cN, s>> ELSE <<s, cN>>, <<vN>>, [NoAt EXCEPT !.axis = 0], <<>>))
 \* Reshape / Expand: target = a computed shape vector or a constant
-RTargets == {IVec(<<-1>>), IVec(<<3>>), IVec(<<1, -1>>), IVec(<<3, 1>>), IVec(<<2, 3>>), IVec(<<6>>), IVec(<<0, -1>>)}
-ETargets == {IVec(<<3>>), IVec(<<1, 3>>), IVec(<<2, 3>>), IVec(<<1>>), IVec(<<2, 1, 3>>)}
-TKinds == IF Rich THEN CKindsPlain ELSE {"init", "ovr"}
+\* <<target, kind>>
+RMenu0 == IF Rich THEN {<<t, k>> : t \in PickN(19, {IVec(<<-1>>), IVec(<<3>>), IVec(<<1, -1>>), IVec(<<3, 1>>), IVec(<<2, 3>>), IVec(<<6>>), IVec(<<0, -1>>)}), k \in PickN(20, CKindsPlain)}
+         ELSE {<<IVec(<<-1>>), "init">>, <<IVec(<<3>>), "init">>, <<IVec(<<3>>), "ovr">>, <<IVec(<<3, 1>>), "cnode">>, <<IVec(<<2, 3>>), "init">>, <<IVec(<<0, -1>>), "init">>}
+RMenu == PickN(21, RMenu0)
+EMenu0 == IF Rich THEN {<<t, k>> : t \in PickN(22, {IVec(<<3>>), IVec(<<1, 3>>), IVec(<<2, 3>>), IVec(<<1>>), IVec(<<2, 1, 3>>)}), k \in PickN(23, CKindsPlain)}
+         ELSE {<<IVec(<<3>>), "init">>, <<IVec(<<3>>), "ovr">>, <<IVec(<<1, 3>>), "cnode">>, <<IVec(<<2, 3>>), "init">>, <<IVec(<<2, 1, 3>>), "init">>}
+EMenu == PickN(24, EMenu0)
 AddReshape == /\ CanAdd
-              /\ \/ \E a \in AvailF, s \in PrimS : TryAdd(<<>>, <<>>, <<N1("Reshape", <<a, s>>, vN)>>)
-                 \/ \E a \in PrimF, t \in RTargets, kind \in TKinds : AddWith(COp(kind, cN, t), N1("Reshape", <<a, cN>>, vN))
+              /\ \/ \E a \in (IF Rich THEN AvailF ELSE {"x"}), s \in PrimS : TryAdd(<<>>, <<>>, <<N1("Reshape", <<a, s>>, vN)>>)
+                 \/ \E a \in PrimF, e \in RMenu : AddWith(COp(e[2], cN, e[1]), N1("Reshape", <<a, cN>>, vN))
 AddExpand == /\ CanAdd
-             /\ \/ \E a \in AvailF, s \in PrimS : TryAdd(<<>>, <<>>, <<N1("Expand", <<a, s>>, vN)>>)
-                \/ \E a \in PrimF, t \in ETargets, kind \in TKinds : AddWith(COp(kind, cN, t), N1("Expand", <<a, cN>>, vN))
+             /\ \/ \E a \in (IF Rich THEN AvailF ELSE {"x"}), s \in PrimS : TryAdd(<<>>, <<>>, <<N1("Expand", <<a, s>>, vN)>>)
+                \/ \E a \in PrimF, e \in EMenu : AddWith(COp(e[2], cN, e[1]), N1("Expand", <<a, cN>>, vN))
 AddUnsqueeze == /\ CanAdd
                 /\ \E a \in PrimF, ax \in {<<0>>, <<1>>}, kind \in (IF Rich THEN {"cnode", "init"} ELSE {"init"}), op \in (IF Rich THEN {"Unsqueeze", "Squeeze"} ELSE {"Unsqueeze"}) :
                       AddWith(COp(kind, cN, IVec(ax)), N1(op, <<a, cN>>, vN))
@@ -267,11 +282,13 @@ Branch(tpl, a, tag, id) ==
      [] tpl = "mulc" -> SubG(<<>>, <<ConstNode(w, FS(2)), N1("Mul", <<a, w>>, o)>>, <<o>>)
      [] tpl = "relu2" -> SubG(<<>>, <<N1("Relu", <<a>>, o \o "a"), N1("Relu", <<o \o "a">>, o)>>, <<o>>)
      [] tpl = "addfold" -> SubG(<<IniR(w, FS(3))>>, <<N1("Neg", <<w>>, o \o "a"), N1("Add", <<a, o \o "a">>, o)>>, <<o>>)
-BranchPairs == IF Rich THEN {<<t, e>> : t \in {"addw", "ident", "mulc", "relu2", "addfold"}, e \in {"addw", "ident", "mulc", "relu2", "addfold"}}
-               ELSE {<<"addw", "ident">>, <<"mulc", "addw">>}
+BranchPairs0 == IF Rich THEN {<<t, e>> : t \in PickN(25, {"addw", "ident", "mulc", "relu2", "addfold"}), e \in PickN(26, {"addw", "ident", "mulc", "relu2", "addfold"})}
+               ELSE {<<"addw", "ident">>}
+BranchPairs == PickN(27, BranchPairs0)
 \* condition: <<kind, value>>
-CondMenu == IF Rich THEN {<<"b", TRUE>>, <<"nb", TRUE>>} \cup {<<k, v>> : k \in CKindsPlain, v \in BOOLEAN}
-            ELSE {<<"b", TRUE>>, <<"init", TRUE>>, <<"ovr", FALSE>>}
+CondMenu0 == IF Rich THEN {<<"b", TRUE>>, <<"nb", TRUE>>} \cup {<<k, v>> : k \in CKindsPlain, v \in BOOLEAN}
+            ELSE {<<"b", TRUE>>, <<"init", FALSE>>, <<"ovr", TRUE>>}
+CondMenu == PickN(28, CondMenu0)
 SubOK(sg, k) == LET e2 == EvalSeq(sg.nodes, 1, InitEnv(sg.inits) @@ envs[k]) IN \A i \in 1..Len(sg.outs) : ~IsErr(Get(e2, sg.outs[i]))
 AddIf == /\ CanAdd /\ "b" \in InNames(m0)
          /\ \E a \in PrimF, bp \in BranchPairs, cd \in CondMenu :
@@ -469,10 +486,10 @@ PE(n, S, TY(_), CVf(_), C) ==
 
 \* _clear_unused_initializers(node inputs) after a replacement.  An initializer that is also a graph input must keep its
 \* default (design); the code pops it like any other initializer (deviation overridable_default_dropped)
-ClearUnused(G, names, C) ==
-   LET dead(nm) == nm # "" /\ Uses(G.nodes, nm) = 0 /\ nm \notin SeqToSet(G.outs)
+ClearUnused(G, names, C, gh) ==
+   LET dead(nm) == nm # "" /\ Uses(G.nodes \o gh, nm) = 0 /\ nm \notin SeqToSet(G.outs)
        keepInit2(i) == LET nm == G.inits[i].name IN
-                       ~(nm \in SeqToSet(names) /\ Uses(G.nodes, nm) = 0 /\ (Mutant = "clear_output_init" \/ nm \notin SeqToSet(G.outs)))
+                       ~(nm \in SeqToSet(names) /\ Uses(G.nodes \o gh, nm) = 0 /\ (Mutant = "clear_output_init" \/ nm \notin SeqToSet(G.outs)))
        dropOvr == {i \in 1..Len(G.ins) : G.ins[i].kind = "ovr" /\ G.ins[i].name \in SeqToSet(names) /\ dead(G.ins[i].name)
                                          /\ "overridable_default_dropped" \in C.devs}
    IN [G |-> [G EXCEPT !.inits = SelectSeq([i \in 1..Len(G.inits) |-> IF keepInit2(i) THEN G.inits[i] ELSE IniR("", ERR)], LAMBDA r : r.name # ""),
@@ -494,11 +511,11 @@ OutRep(G, S, i) ==
            ELSE LET f == "t" \o Str(S.fresh)
                     nodes2 == RenNodes(RenNodes(G.nodes, o, f, TRUE), c, o, TRUE)
                     ty2 == (o :> TyGet(S.ty, c)) @@ (f :> TyGet(S.ty, o)) @@ S.ty
-                IN OutRep([G EXCEPT !.nodes = nodes2], Log([S EXCEPT !.fresh = @ + 1, !.ty = ty2], "OutputReplaced:" \o o), i + 1)
+                IN OutRep([G EXCEPT !.nodes = nodes2], Log([S EXCEPT !.fresh = @ + 1, !.ty = ty2, !.ghost = RenNodes(RenNodes(@, o, f, TRUE), c, o, TRUE)], "OutputReplaced:" \o o), i + 1)
 
 \* FoldConstantsPass.visit_node on node k of graph G.  Returns the new graph, state and the position to continue at.
 RECURSIVE FoldFrom(_, _, _, _), VisitNode(_, _, _, _)
-FoldFrom(G, k, S, C) == IF k > Len(G.nodes) THEN [G |-> G, S |-> S]
+FoldFrom(G, k, S, C) == IF k > Len(G.nodes) THEN [G |-> G, S |-> S, next |-> k]
                         ELSE LET r == VisitNode(G, k, S, C) IN FoldFrom(r.G, r.next, r.S, C)
 FoldGraph(G, S, C) == LET r == FoldFrom(G, 1, S, C) IN OutRep(r.G, r.S, 1)
 VisitNode(G, k, S, C) ==
@@ -526,7 +543,7 @@ VisitNode(G, k, S, C) ==
                    /\ \A i \in 1..Len(n.ins) : n.ins[i] = "" \/ ((Mutant = "fold_graph_input" \/ n.ins[i] \notin C.gins) /\ ~IsErr(Get(cm @@ C.ovrc, n.ins[i])))
        fval == OpEval(n, cm @@ C.ovrc)[1]
    IN IF pe.hit /\ pe.inl = 0 THEN
-         LET cl == ClearUnused([G1 EXCEPT !.nodes = Splice(G1.nodes, k, pe.nodes)], n.ins, C)
+         LET cl == ClearUnused([G1 EXCEPT !.nodes = Splice(G1.nodes, k, pe.nodes)], n.ins, C, S.ghost)
          IN [G |-> cl.G, next |-> k,
              S |-> Log([S1 EXCEPT !.sym = DropKeys(pe.sym, SeqToSet(n.outs)), !.used = @ \cup pe.used \cup cl.used,
                                   !.fresh = @ + (IF pe.tag = "PE_Dropout_mask" THEN 1 ELSE 0)], pe.tag \o ":" \o n.outs[1])]
@@ -535,11 +552,12 @@ VisitNode(G, k, S, C) ==
              RECURSIVE RenAll(_, _)
              RenAll(nodes, i) == IF i > Len(br.outs) THEN nodes ELSE RenAll(RenNodes(nodes, br.outs[i], n.outs[i], TRUE), i + 1)
              moved == RenAll(br.nodes, 1)
-             cl == ClearUnused([G1 EXCEPT !.nodes = Splice(G1.nodes, k, moved), !.inits = @ \o br.inits], n.ins, C)
+             gh2 == S.ghost \o n.sub[3 - pe.inl].nodes
+             cl == ClearUnused([G1 EXCEPT !.nodes = Splice(G1.nodes, k, moved), !.inits = @ \o br.inits], n.ins, C, gh2)
          IN [G |-> cl.G, next |-> k,
-             S |-> Log([S1 EXCEPT !.sym = DropKeys(pe.sym, SeqToSet(n.outs)), !.used = @ \cup pe.used \cup cl.used], pe.tag \o ":" \o n.outs[1])]
+             S |-> Log([S1 EXCEPT !.sym = DropKeys(pe.sym, SeqToSet(n.outs)), !.used = @ \cup pe.used \cup cl.used, !.ghost = gh2], pe.tag \o ":" \o n.outs[1])]
       ELSE IF foldable /\ ~IsErr(fval) THEN       \* FoldByReference
-         LET cl == ClearUnused([G1 EXCEPT !.nodes = Splice(G1.nodes, k, <<>>), !.inits = Append(@, IniR(n.outs[1], fval))], n.ins, C)
+         LET cl == ClearUnused([G1 EXCEPT !.nodes = Splice(G1.nodes, k, <<>>), !.inits = Append(@, IniR(n.outs[1], fval))], n.ins, C, S.ghost)
          IN [G |-> cl.G, next |-> k,
              S |-> Log([S1 EXCEPT !.sym = DropKeys(pe.sym, SeqToSet(n.outs)), !.used = @ \cup cl.used,
                                   !.ty = (n.outs[1] :> [dt |-> fval.dt, sh |-> fval.shape]) @@ ty1c], "FoldByReference:" \o n.outs[1])]
@@ -558,7 +576,7 @@ RRaise(name, used) == [NoRule EXCEPT !.hit = TRUE, !.name = name, !.raise = TRUE
 FirstHit(rs) == IF \E i \in 1..Len(rs) : rs[i].hit THEN rs[CHOOSE i \in 1..Len(rs) : rs[i].hit /\ \A j \in 1..(i - 1) : ~rs[j].hit] ELSE NoRule
 ScalarIs(cm, nm, v) == nm # "" /\ LET c == Get(cm, nm) IN ~IsErr(c) /\ c.shape = <<>> /\ c.data[1] = v
 InnerIdx(G, k, ops) == LET j == ProdIdx(G.nodes, G.nodes[k].ins[1]) IN IF j # 0 /\ G.nodes[j].op \in ops THEN j ELSE 0
-Removable(G, j, k) == LET v == G.nodes[j].outs[1] IN v \notin SeqToSet(G.outs) /\ Uses(G.nodes, v) = Cnt(G.nodes[k].ins, v)
+Removable(G, j, k, gh) == LET v == G.nodes[j].outs[1] IN v \notin SeqToSet(G.outs) /\ Uses(G.nodes \o gh, v) = Cnt(G.nodes[k].ins, v)
 BoundV(cm, nm) == IF nm = "" THEN NONEB ELSE Get(cm, nm).data[1]
 Combine(a, b, F(_, _)) == IF a # NONEB /\ b # NONEB THEN F(a, b) ELSE IF a # NONEB THEN a ELSE b
 ClipNode(x, o, base, dt, lo, hi) ==      \* Clip(x, <base>_min, <base>_max) with new initializers
@@ -597,7 +615,7 @@ Rules(G, k, S, cm, C) ==
                       RECURSIVE Red(_, _, _)
                       Red(F(_, _), cs, i) == IF i = Len(cs) THEN Get(cm, cs[i]) ELSE Map2(Get(cm, cs[i]), Red(F, cs, i + 1), dt, F)
                       RedS(F(_, _), cs) == Red(F, cs, 1).data[1]
-                  IN IF ~Removable(G, j, k) \/ ~consts \/ Len(all) < 2 THEN NoRule
+                  IN IF ~Removable(G, j, k, S.ghost) \/ ~consts \/ Len(all) < 2 THEN NoRule
                      ELSE IF inn.op = "Min" /\ n.op = "Min"
                           THEN RHit("FuseSuccessiveMin", <<N1("Min", <<x, x \o "_min">>, o)>>, <<IniR(x \o "_min", Red(Min2, all, 1))>>, j, OvrU(all), 0)
                      ELSE IF inn.op = "Max" /\ n.op = "Max"
@@ -610,7 +628,7 @@ Rules(G, k, S, cm, C) ==
                            IN RHit("FuseMaxMinToClip", cn.nodes, cn.inits, j, OvrU(all), 0))
        \* --- _fuse_relus_clips
        rc == LET j == IF n.op \in {"Relu", "Clip"} THEN InnerIdx(G, k, {"Relu", "Clip"}) ELSE 0 IN
-             IF j = 0 \/ ~Removable(G, j, k) THEN NoRule
+             IF j = 0 \/ ~Removable(G, j, k, S.ghost) THEN NoRule
              ELSE LET inn == G.nodes[j]
                       x == inn.ins[1]
                       BoundsOf(nd) == SelectSeq(Tail(nd.ins), LAMBDA b : b # "")
@@ -643,7 +661,7 @@ Rules(G, k, S, cm, C) ==
        expid == IF n.op = "Expand" /\ ~IsErr(Get(cm, n.ins[2])) /\ TY(n.ins[1]).sh # NOSHP /\ TY(n.ins[1]).sh = Get(cm, n.ins[2]).data
                 THEN RHit("ExpandIdentity", Ident(n.ins[1]), <<>>, 0, OvrU(<<n.ins[2]>>), 0) ELSE NoRule
        rr == LET j == IF n.op = "Reshape" THEN InnerIdx(G, k, {"Reshape"}) ELSE 0 IN
-             IF j = 0 \/ ~Removable(G, j, k) \/ IsErr(Get(cm, n.ins[2])) THEN NoRule
+             IF j = 0 \/ ~Removable(G, j, k, S.ghost) \/ IsErr(Get(cm, n.ins[2])) THEN NoRule
              ELSE LET tv == Get(cm, n.ins[2]).data
                       osh == TY(o).sh
                       ns == [i \in 1..Len(tv) |-> IF osh # NOSHP /\ i <= Len(osh) /\ osh[i] > 0 THEN osh[i] ELSE tv[i]]
@@ -657,14 +675,14 @@ Rules(G, k, S, cm, C) ==
                      ELSE RHit("ReshapeReshape", <<N1("Reshape", <<x, nm>>, o)>>, <<IniR(nm, IVec([i \in 1..Len(ns) |-> IF ns[i] = 0 THEN -1 ELSE ns[i]]))>>, j, OvrU(<<n.ins[2]>>), 0)
        trid == IF n.op = "Transpose" /\ n.at.perm = [i \in 1..Len(n.at.perm) |-> i - 1] THEN RHit("TransposeIdentity", Ident(n.ins[1]), <<>>, 0, {}, 0) ELSE NoRule
        trtr == LET j == IF n.op = "Transpose" THEN InnerIdx(G, k, {"Transpose"}) ELSE 0 IN
-               IF j = 0 \/ ~Removable(G, j, k) THEN NoRule
+               IF j = 0 \/ ~Removable(G, j, k, S.ghost) THEN NoRule
                ELSE LET p1 == G.nodes[j].at.perm p2 == n.at.perm
                         last == IF Mutant = "transpose_order" THEN [i \in 1..Len(p1) |-> p2[p1[i] + 1]] ELSE [i \in 1..Len(p2) |-> p1[p2[i] + 1]]
                         x == G.nodes[j].ins[1]
                     IN IF last = [i \in 1..Len(last) |-> i - 1] THEN RHit("TransposeTranspose", Ident(x), <<>>, j, {}, 0)
                        ELSE RHit("TransposeTranspose", <<Nd("Transpose", <<x>>, <<o>>, [NoAt EXCEPT !.perm = last], <<>>)>>, <<>>, j, {}, 0)
        unun == LET j == IF n.op = "Unsqueeze" THEN InnerIdx(G, k, {"Unsqueeze"}) ELSE 0 IN
-               IF j = 0 \/ ~Removable(G, j, k) THEN NoRule
+               IF j = 0 \/ ~Removable(G, j, k, S.ghost) THEN NoRule
                ELSE LET a1 == Get(cm, G.nodes[j].ins[2]) a2 == Get(cm, n.ins[2]) IN
                     IF IsErr(a1) \/ IsErr(a2) \/ Len(a1.data) # 1 \/ Len(a2.data) # 1 \/ a1.data[1] < 0 \/ a2.data[1] < 0 THEN NoRule
                     ELSE LET v1 == a1.data[1] v2 == a2.data[1]
@@ -674,7 +692,7 @@ Rules(G, k, S, cm, C) ==
 
 \* RewriteRuleSet._apply_to_graph_or_function on node k of G
 RECURSIVE RewriteFrom(_, _, _, _), RewriteNode(_, _, _, _)
-RewriteFrom(G, k, S, C) == IF k > Len(G.nodes) \/ S.raised # "" THEN [G |-> G, S |-> S]
+RewriteFrom(G, k, S, C) == IF k > Len(G.nodes) \/ S.raised # "" THEN [G |-> G, S |-> S, next |-> k]
                            ELSE LET r == RewriteNode(G, k, S, C) IN RewriteFrom(r.G, r.next, r.S, C)
 RewriteNode(G, k, S, C) ==
    LET n == G.nodes[k]
@@ -699,18 +717,18 @@ RewriteNode(G, k, S, C) ==
 -----------------------------------------------------------------------------
 (* the remaining passes, each on the whole model *)
 RemoveAtSeq(sq, i) == SubSeq(sq, 1, i - 1) \o SubSeq(sq, i + 1, Len(sq))
-RECURSIVE DceFrom(_, _, _)
-DceFrom(nodes, k, outs) ==
+RECURSIVE DceFrom(_, _, _, _)
+DceFrom(nodes, k, outs, gh) ==
    IF k = 0 THEN nodes
    ELSE LET n == nodes[k]
-            dead == \A i \in 1..Len(n.outs) : n.outs[i] \notin SeqToSet(outs) /\ Uses(nodes, n.outs[i]) = 0
-        IN IF dead THEN DceFrom(RemoveAtSeq(nodes, k), k - 1, outs)
-           ELSE LET trimmed == IF n.op = "Dropout" /\ Len(n.outs) = 2 /\ n.outs[2] \notin SeqToSet(outs) /\ Uses(nodes, n.outs[2]) = 0 THEN <<n.outs[1]>> ELSE n.outs
+            dead == \A i \in 1..Len(n.outs) : n.outs[i] \notin SeqToSet(outs) /\ Uses(nodes \o gh, n.outs[i]) = 0
+        IN IF dead THEN DceFrom(RemoveAtSeq(nodes, k), k - 1, outs, gh)
+           ELSE LET trimmed == IF n.op = "Dropout" /\ Len(n.outs) = 2 /\ n.outs[2] \notin SeqToSet(outs) /\ Uses(nodes \o gh, n.outs[2]) = 0 THEN <<n.outs[1]>> ELSE n.outs
                     n2 == [n EXCEPT !.outs = trimmed,
-                                    !.sub = [j \in 1..Len(n.sub) |-> [n.sub[j] EXCEPT !.nodes = DceFrom(n.sub[j].nodes, Len(n.sub[j].nodes), n.sub[j].outs)]]]
-                IN DceFrom([nodes EXCEPT ![k] = n2], k - 1, outs)
-DcePass(G) == LET ns == DceFrom(G.nodes, Len(G.nodes), G.outs)
-              IN [G EXCEPT !.nodes = ns, !.inits = SelectSeq(G.inits, LAMBDA x : Uses(ns, x.name) > 0 \/ x.name \in SeqToSet(G.outs))]
+                                    !.sub = [j \in 1..Len(n.sub) |-> [n.sub[j] EXCEPT !.nodes = DceFrom(n.sub[j].nodes, Len(n.sub[j].nodes), n.sub[j].outs, gh)]]]
+                IN DceFrom([nodes EXCEPT ![k] = n2], k - 1, outs, gh)
+DcePass(G, gh) == LET ns == DceFrom(G.nodes, Len(G.nodes), G.outs, gh)
+              IN [G EXCEPT !.nodes = ns, !.inits = SelectSeq(G.inits, LAMBDA x : Uses(ns \o gh, x.name) > 0 \/ x.name \in SeqToSet(G.outs))]
 \* LiftConstantsToInitializersPass(lift_all_constants, size_limit 0): in every graph; not when the Constant is a graph output
 RECURSIVE LiftC(_)
 LiftC(G) ==
@@ -776,7 +794,8 @@ Init == /\ stage = "build"
         /\ wd \in Worlds
         /\ m0 = [ins |-> WIns(wd), inits |-> <<>>, nodes |-> <<>>, outs |-> <<>>, main |-> <<>>]
         /\ envs = [k \in 1..NP |-> WFeeds(wd)[k]]
-        /\ gr = <<>> /\ st = <<>> /\ dsg = <<>>
+        /\ gr = <<>> /\ st = <<>>
+        /\ rnd \in (IF Sim THEN 1..997 ELSE {0})
 \* graph outputs: the last value; optionally a second output: an earlier value, an initializer, the graph input x
 ExtraOuts == LET s == m0.main IN
    IF Rich THEN {s[j] : j \in 1..(Len(s) - 1)} \cup {m0.inits[i].name : i \in 1..Len(m0.inits)} \cup {"x"} ELSE {}
@@ -789,10 +808,14 @@ SubTy(nodes) == IF nodes = <<>> THEN EmptyF
 InitTy(m) == [nm \in {m.ins[i].name : i \in 1..Len(m.ins)} |-> LET r == m.ins[CHOOSE i \in 1..Len(m.ins) : m.ins[i].name = nm] IN [dt |-> r.dt, sh |-> r.ds]]
              @@ [nm \in {m.inits[i].name : i \in 1..Len(m.inits)} |-> LET v == m.inits[CHOOSE i \in 1..Len(m.inits) : m.inits[i].name = nm].val IN [dt |-> v.dt, sh |-> v.shape]]
              @@ SubTy(m.nodes)
-St0(m, mode) == [mode |-> mode, pc |-> 1, iter |-> 1, sym |-> EmptyF, ty |-> InitTy(m), fresh |-> 1, used |-> {}, raised |-> "", log |-> <<>>]
+\* declared graph outputs: element type and rank (the harness declares every dim unknown); an output that is a graph input
+\* keeps the input's declaration
+OutTy(m, ex) == LET I == {i \in 1..Len(m.outs) : m.outs[i] \notin {m.ins[j].name : j \in 1..Len(m.ins)}}
+                IN [nm \in {m.outs[i] : i \in I} |-> LET v == ex[CHOOSE i \in I : m.outs[i] = nm] IN [dt |-> v.dt, sh |-> Unknowns(Len(v.shape))]]
+St0(m, mode, ex) == [mode |-> mode, pc |-> 1, iter |-> 1, sym |-> EmptyF, ty |-> OutTy(m, ex) @@ InitTy(m), fresh |-> 1, used |-> {}, raised |-> "", log |-> <<>>, ghost |-> <<>>]
 FeedsOf(m) == [k \in 1..(IF OvrNames(m) = {} THEN NP ELSE NP + 1) |-> IF k <= NP THEN WFeeds(wd)[k] ELSE OvrFeed(m, wd)]
 Finish == /\ stage = "build" /\ Len(m0.main) >= 1
-          /\ \E extra \in {""} \cup ExtraOuts :
+          /\ \E extra \in PickN(29, {""} \cup ExtraOuts) :
                 LET outs == IF extra = "" THEN <<m0.main[Len(m0.main)]>> ELSE <<m0.main[Len(m0.main)], extra>>
                     m == [m0 EXCEPT !.outs = outs]
                     fs == FeedsOf(m)
@@ -800,9 +823,9 @@ Finish == /\ stage = "build" /\ Len(m0.main) >= 1
                 IN /\ \A k \in 1..Len(fs) : \A i \in 1..Len(outs) : ~IsErr(ex[k][i])
                    /\ m0' = m /\ gr' = m
                    /\ envs' = [feeds |-> fs, expect |-> ex]
-                   /\ st' = St0(m, "impl")
+                   /\ st' = St0(m, "impl", ex[1])
                    /\ stage' = "fold"
-                   /\ UNCHANGED <<wd, dsg>>
+                   /\ UNCHANGED <<wd, rnd>>
 Build == AddUnary \/ AddDropoutMask \/ AddCast \/ AddCastLike \/ AddTranspose \/ AddBinConst \/ AddBin \/ AddClip
          \/ AddShapeOp \/ AddReshape \/ AddExpand \/ AddUnsqueeze \/ AddIf
 
@@ -812,10 +835,10 @@ Ctx == [cenv |-> IF "overridable_read_as_const" \in Devs THEN OvrMap(gr) ELSE Em
         gins |-> {gr.ins[i].name : i \in 1..Len(gr.ins)},
         ovr |-> {gr.ins[i].name : i \in {i \in 1..Len(gr.ins) : gr.ins[i].kind \in {"ovr", "ovrx"}}},
         devs |-> Devs]
-Keep == UNCHANGED <<wd, m0, envs, dsg>>
+Keep == UNCHANGED <<wd, m0, envs, rnd>>
 \* FoldConstantsPass: one node of the main graph per step
 FoldVisit == /\ stage = "fold" /\ st.pc <= Len(gr.nodes)
-             /\ LET r == VisitNode(gr, st.pc, st, Ctx)
+             /\ LET r == IF Fine THEN VisitNode(gr, st.pc, st, Ctx) ELSE [FoldFrom(gr, st.pc, st, Ctx) EXCEPT !.next = 1000]
                 IN gr' = r.G /\ st' = [r.S EXCEPT !.pc = r.next]
              /\ UNCHANGED stage /\ Keep
 FoldOutputs == /\ stage = "fold" /\ st.pc > Len(gr.nodes)
@@ -824,19 +847,19 @@ FoldOutputs == /\ stage = "fold" /\ st.pc > Len(gr.nodes)
                /\ stage' = "rewrite" /\ Keep
 \* RewritePass: one node of the main graph per step
 RewriteVisit == /\ stage = "rewrite" /\ st.pc <= Len(gr.nodes) /\ st.raised = ""
-                /\ LET r == RewriteNode(gr, st.pc, st, Ctx)
+                /\ LET r == IF Fine THEN RewriteNode(gr, st.pc, st, Ctx) ELSE [RewriteFrom(gr, st.pc, st, Ctx) EXCEPT !.next = 1000]
                    IN gr' = r.G /\ st' = [r.S EXCEPT !.pc = r.next]
                 /\ UNCHANGED stage /\ Keep
 Raised == /\ stage \in {"fold", "rewrite"} /\ st.raised # ""
           /\ stage' = "done" /\ UNCHANGED <<gr, st>> /\ Keep
 \* remove_unused_nodes (inside RewritePass and as RemoveUnusedNodesPass), then the next iteration of the PassManager
 DCE == /\ stage = "rewrite" /\ st.pc > Len(gr.nodes) /\ st.raised = ""
-       /\ gr' = DcePass(gr)
+       /\ gr' = DcePass(gr, st.ghost)
        /\ IF st.iter < NumIter THEN stage' = "fold" /\ st' = [st EXCEPT !.pc = 1, !.iter = @ + 1]
                                ELSE stage' = "lift" /\ st' = [st EXCEPT !.pc = 1]
        /\ Keep
 LiftConstants == /\ stage = "lift"
-                 /\ gr' = LiftC(DcePass(gr)) /\ stage' = "liftsub" /\ UNCHANGED st /\ Keep
+                 /\ gr' = LiftC(DcePass(gr, st.ghost)) /\ stage' = "liftsub" /\ UNCHANGED st /\ Keep
 LiftSubgraphInits == /\ stage = "liftsub"
                      /\ gr' = LiftSub(gr) /\ stage' = "dedup" /\ UNCHANGED st /\ Keep
 DedupInits == /\ stage = "dedup"
@@ -849,7 +872,7 @@ OutputFix == /\ stage = "outfix"
              /\ stage' = "done" /\ Keep
 \* a run of the implementation model that needed a deviation is repeated as a run of the design
 DesignRerun == /\ stage = "done" /\ st.mode = "impl" /\ st.used # {}
-               /\ gr' = m0 /\ st' = St0(m0, "design") /\ stage' = "fold" /\ Keep
+               /\ gr' = m0 /\ st' = St0(m0, "design", envs.expect[1]) /\ stage' = "fold" /\ Keep
 Optimize == FoldVisit \/ FoldOutputs \/ RewriteVisit \/ Raised \/ DCE \/ LiftConstants \/ LiftSubgraphInits \/ DedupInits \/ CSE \/ OutputFix
 Next == Build \/ Finish \/ Optimize \/ DesignRerun
 Spec == Init /\ [][Next]_vars
